@@ -567,12 +567,12 @@ theorem roundtrip_aux (hg : cu.gen = true) (hstrat : cs.tupleStrat = cu.tupleStr
         | _ => simp [conf] at hc
       | map k kt vt =>
         simp only [Ty.supG, Bool.and_eq_true] at hs
-        obtain ⟨⟨hp, hsk⟩, hsv⟩ := hs
+        obtain ⟨⟨⟨hp, hsk⟩, hsv⟩, htd⟩ := hs
         simp only [Ty.unionsOK, Bool.and_eq_true] at hu
         cases x with
         | dict kvs =>
           simp only [conf, Bool.and_eq_true] at hc
-          obtain ⟨⟨hckv, hnd⟩, hh⟩ := hc
+          obtain ⟨⟨⟨hckv, hnd⟩, hh⟩, hkt⟩ := hc
           have hkv := (confKV_iff w kt vt kvs).mp hckv
           have hP := un_hp w cu cs.gen hg hwe kt hp hsk
           have hnd' : nodupPy (keysOf (unKV w cu kt vt kvs)) = true := by
@@ -587,7 +587,31 @@ theorem roundtrip_aux (hg : cu.gen = true) (hstrat : cs.tupleStrat = cu.tupleStr
             have hvv := validKV_mem (p := (a, b)) (by simp only [Obj.valid, Bool.and_eq_true] at hv; exact hv.2) hp'
             exact ⟨IHo kt a (by simp; omega) hsk hu.1 (hkv.1 a (by simp only [keysOf, List.mem_map]; exact ⟨(a, b), hp', rfl⟩)) hvv.1,
                    IHo vt b (by simp; omega) hsv hu.2 (hkv.2 b (by simp only [List.mem_map]; exact ⟨(a, b), hp', rfl⟩)) hvv.2⟩)]
-          simp [hh, mkDict_of_nodup _ hnd]
+          have hk : k.target = Option.none := by simpa using hkt
+          simp [hh, mkDict_of_nodup _ hnd, mapRes_plain cs kvs hk]
+        | mdict d kvs =>
+          simp only [conf, Bool.and_eq_true] at hc
+          obtain ⟨⟨⟨hckv, hnd⟩, hh⟩, hkt⟩ := hc
+          have hkv := (confKV_iff w kt vt kvs).mp hckv
+          have hP := un_hp w cu cs.gen hg hwe kt hp hsk
+          have hnd' : nodupPy (keysOf (unKV w cu kt vt kvs)) = true := by
+            rw [keysOf_unKV]
+            exact unL_nodup w cu kt _ (fun a ha b hb => hP.2 a b (hkv.1 a ha) (hkv.1 b hb)) hnd
+          rw [un]; simp only [hg, if_true, mkDict_of_nodup _ hnd']
+          rw [stF]
+          rw [rtKV w cu cs kt vt kvs (fun p hp' => by
+            have h1 := List.sizeOf_lt_of_mem hp'
+            obtain ⟨a, b⟩ := p
+            simp only [Prod.mk.sizeOf_spec] at h1
+            have hvv := validKV_mem (p := (a, b)) (by simp only [Obj.valid, Bool.and_eq_true] at hv; exact hv.2) hp'
+            exact ⟨IHo kt a (by simp; omega) hsk hu.1 (hkv.1 a (by simp only [keysOf, List.mem_map]; exact ⟨(a, b), hp', rfl⟩)) hvv.1,
+                   IHo vt b (by simp; omega) hsv hu.2 (hkv.2 b (by simp only [List.mem_map]; exact ⟨(a, b), hp', rfl⟩)) hvv.2⟩)]
+          have hk : k.target = some d := by simpa using hkt
+          have hcg : cs.gen = true := by
+            rcases Bool.or_eq_true _ _ |>.mp htd with h | h
+            · exact h
+            · rw [hk] at h; simp at h
+          simp [hh, mkDict_of_nodup _ hnd, mapRes_target cs kvs hcg hk]
         | _ => simp [conf] at hc
       | opt t' =>
         have hsz : sizeOf t' ≤ m := by simp at ht; omega
